@@ -95,7 +95,9 @@ var props = map[string]propSpec{
 		{Name: "sesshist", Quick: 300, Thorough: 1200},
 		{Name: "sessconc", Quick: 300, Thorough: 900},
 		{Name: "sesslru", Quick: 300, Thorough: 600},
+		{Name: "agentw", Quick: 300, Thorough: 600, Args: []string{"-prop", "C10"}},
 	}, Assume: []string{
+		"whole agent (harness agentw): one session through main() with session tracking and the websocket shim: path-scoped and host-wide cookies set by the first answer, then shim open requests and plain requests on paths inside and outside the scope",
 		"bounded cache: limits of 2 and 3 sessions, every request sequence of depth 7 (quick) / 8 (thorough) by four returning clients and fresh clients, against a reference least-recently-used list over the keys the handler touches (presented session or the empty key on arrival, the session's key when the header is written): a session that is among the `limit` most recently used keys must still present its cookie",
 		"histories: every sequence of 3 requests over (client A/B/fresh) x 2 hosts x 2 paths x client-side cookies x 9 backend Set-Cookie replies (set, overwrite, delete by Max-Age and by Expires, path- and domain-scoped, Secure/HttpOnly, two at once) through the real session handler, against one reference cookie jar per session; session-cache limit 1000 so that no session is evicted (eviction is outside the property's premise)",
 		"concurrency: 2-3 concurrent requests of the same / different / no session under all interleavings up to the preemption bound; groupcache's lru.Cache is a declared non-thread-safe object (vector-clock race detection)",
